@@ -359,11 +359,12 @@ where
     let topic_cache = self.acquire_the_topic_cache_guard();
 
     let mut read_state_ref = self.read_state.lock().unwrap();
-    let latest_instant = read_state_ref.latest_instant;
-    let (last_read_sn, hash_to_key_map) = read_state_ref.get_sn_map_and_hash_map();
 
     // loop in case we get a sample that should be ignored, so we try next.
     loop {
+      let latest_instant = read_state_ref.latest_instant;
+      let (last_read_sn, hash_to_key_map) = read_state_ref.get_sn_map_and_hash_map();
+
       let (timestamp, cc) =
         match Self::try_take_undecoded(is_reliable, &topic_cache, latest_instant, last_read_sn)
           .next()
@@ -374,19 +375,21 @@ where
 
       let result = self.deserialize_with(timestamp, cc, hash_to_key_map, decoder.clone());
 
+      // make copies of guid and SN to calm down borrow checker.
+      let writer_guid = cc.writer_guid;
+      let sequence_number = cc.sequence_number;
+      // Advance read pointer, error or not, and also for a sample that is ignored,
+      // because otherwise the SimpleDatareader is stuck: the next round of this loop
+      // (or the next call) would find the very same sample again.
+      read_state_ref.latest_instant = max(latest_instant, timestamp);
+      read_state_ref
+        .last_read_sn
+        .insert(writer_guid, sequence_number);
+
       if let Err(ReadError::UnknownKey { .. }) = result {
         // ignore unknown key hash, continue looping
       } else {
         // return with this result
-        // make copies of guid and SN to calm down borrow checker.
-        let writer_guid = cc.writer_guid;
-        let sequence_number = cc.sequence_number;
-        // Advance read pointer, error or not, because otherwise
-        // the SimpleDatareader is stuck.
-        read_state_ref.latest_instant = max(latest_instant, timestamp);
-        read_state_ref
-          .last_read_sn
-          .insert(writer_guid, sequence_number);
 
         // // Debug sanity check:
         // use crate::Duration;
